@@ -7,6 +7,7 @@ import (
 	"io"
 
 	"verifsim/core"
+	"verifsim/gen"
 	"verifsim/harness"
 )
 
@@ -85,8 +86,19 @@ func c12Judge(c *Ctx, stream []byte, rk int, d Delivery, strict bool, what strin
 		what += " (device Seek fails)"
 		c.Inc("fault:seek-fails:configured")
 	}
-	r := newReader(c.Dev, stream, Fault{SeekFail: seekFail}, d)
-	res := invoke(c, e, &harness.Env{RK: rk}, r)
+	// the search may start in the middle of a stream the caller has partly consumed (through the
+	// same reader): offsets are counted from where it starts
+	env := &harness.Env{RK: rk}
+	content := stream
+	if x := c.L("dev:0:x"); x.Chance(1, 4) {
+		n := []int{1, 40, 4060, 4096, 8150}[x.Intn(5)] + x.Intn(40)
+		content = append(gen.ScreenTIFF(x.Sub().Bytes(n)), stream...)
+		env.Prepos, env.PreposSeek = n, !seekFail && x.Chance(1, 3)
+		what += fmt.Sprintf(" (%d bytes consumed before the search)", n)
+		c.Inc("probe:search-starts-midstream")
+	}
+	r := newReader(c.Dev, content, Fault{SeekFail: seekFail}, d)
+	res := invoke(c, e, env, r)
 	if c.PlanOnly {
 		return true
 	}
